@@ -264,7 +264,9 @@ def run_model(res, spec):
     # from repr(operation); fall back on structure (2 per op, in op order, + 1)
     nvars = len(proto.variables)
     if nvars != 2 * ref.N + 1:
-        res.violation(check, "unexpected-number-of-variables", spec=spec, variables=names)
+        # a differently built (possibly equally valid) model: this sub-check
+        # cannot interpret it and says so instead of guessing
+        res.note("variable-layout-not-recognised")
         return
     start_idx = [2 * o for o in range(ref.N)]
     end_idx = [2 * o + 1 for o in range(ref.N)]
@@ -335,6 +337,10 @@ def run_model(res, spec):
         cp_model.CpSolver = StubSolver
         try:
             S = ORToolsSolver().solve(inst)
+        except (AttributeError, TypeError, NotImplementedError) as exc:
+            # the stub does not offer what this implementation asks of a solver
+            res.note(f"stub-solver-insufficient:{type(exc).__name__}")
+            break
         except Exception as exc:  # noqa: BLE001
             res.violation(check2, f"reconstruction-raised:{type(exc).__name__}", spec=spec, start_times=[val[i] for i in start_idx], error=repr(exc)[:300])
             continue
